@@ -232,7 +232,11 @@ class MPS(DNAS):
         :return: the precision-assignement found by the NAS
         :rtype: Dict[str, Dict[str, Any]]
         """
+        # tracing forces eval() on the seed: restore the training status found
+        training_status = [(m, m.training) for m in self.seed.modules()]
         mod, _, _ = convert(self.seed, self._input_example, 'export')
+        for m, status in training_status:
+            m.training = status
         return mod
 
     def summary(self) -> Dict[str, Dict[str, Any]]:
